@@ -227,7 +227,7 @@ def wf_family(prop, tier):
     """Programs for C10/C11/C12: the constructs of the other families that stress sorts, declarations and ownership."""
     rng = random.Random(seed() * 7919 + 10)
     out = []
-    out += c05_assign() + c05_assign_narrow()
+    out += c05_assign() + c05_assign_narrow() + macro_args()[:-2]
     out += c06(tier)
     out += [p for p in c09(tier) if "?" in p or "sizeof" in p][:400]
     d1 = c02_depth1()
@@ -285,6 +285,19 @@ def wf_family(prop, tier):
     return list(dict.fromkeys(out))
 
 
+def macro_args():
+    """Plugin macros (up to four parameters) with a COMPUTED value in every argument position (each argument is an operation of
+    its own that the statement has to declare / execute in both layouts)."""
+    return ["{ RdV = deposit32(RsV, 0, 8, RtV + 1); }", "{ RdV = deposit32(RsV + 1, 0, 8, RtV); }", "{ RddV = deposit64(RssV, 8, 16, RttV * 3); }",
+            "{ RdV = deposit32(RsV, 4, 8, (RtV < RuV) ? RtV : RuV); }", "{ RdV = extract32(RsV ^ RtV, 4, 8); }",
+            "{ RddV = sextract64(RssV + RttV, 3, 9); }", "{ RddV = extract64(RssV - RttV, 0, 33); }",
+            "{ RdV = deposit32(deposit32(RsV, 0, 8, RtV & 15), 8, 8, RuV + 2); }", "{ RdV = bswap32(RsV + RtV); }",
+            "{ RdV = deposit32(RsV * 3, 0, 8, RtV - RuV) + extract32(RuV + 1, 2, 5); }",
+            "{ if (RuV) { RdV = deposit32(RsV, 0, 8, RtV + 1); } else { RdV = deposit32(RsV, 8, 8, RtV - 1); } }",
+            "{ for (i = 0; i < 2; i++) { RxV = deposit32(RxV, 0, 8, RtV + i); } }",
+            "{ RdV = deposit32(RsV, 0, 8, clz32(RtV)); }", "{ RdV = deposit32(RsV, 0, 8, RxV++); }"]
+
+
 def layout_family(tier):
     """Programs for C16: every statement/expression kind the two emitters order differently (hybrids, loops, branches,
     nested blocks, immediates, folded constants, sub-routine calls)."""
@@ -306,6 +319,7 @@ def layout_family(tier):
     out += C15_TOPLEVEL
     nr = c02_narrow()
     out += nr[:: (2 if tier == "thorough" else 9)]
+    out += macro_args()
     return list(dict.fromkeys(out))
 
 
@@ -691,6 +705,14 @@ def c07(tier):
             out.append(f"{{ {tok} = RsV; }}")
             out.append(f"{{ {tok} = RsV; RxxV = {tok}; }}")
             out.append(f"{{ RxxV = {tok}; {tok} = RsV; RyyV = {tok}; }}")
+    # the .new and the plain spelling of ONE register in one behaviour, in both orders (two operands, each with its own flag)
+    for plain, new_ in [(f"HEX_REG_ALIAS_{a}", f"HEX_REG_ALIAS_{a}_NEW") for a in ("LR", "SP", "USR", "UPCYCLE", "P3_0", "M0")] + \
+            [("R3", "R3_NEW"), ("P1", "P1_NEW"), ("C1", "C1_NEW"), ("R1:0", "R1:0_NEW"), ("RsV", "RsN"), ("PtV", "PtN")]:
+        wide = "RxxV", "RyyV"
+        out.append(f"{{ {wide[0]} = {new_}; {wide[1]} = {plain}; }}")
+        out.append(f"{{ {wide[0]} = {plain}; {wide[1]} = {new_}; }}")
+        out.append(f"{{ {wide[0]} = {new_} + {plain}; }}")
+        out.append(f"{{ {wide[0]} = {plain} - {new_}; }}")
     # immediates
     for l in IMM_LETTERS:
         out.append(f"{{ RxxV = {l}iV; }}")
@@ -937,6 +959,12 @@ C15_STMTS = [
     # unknown functions whose names resemble the two names the transformer special-cases (fatal -> nothing, MEM_STORE0 -> NOP)
     "fatal_unless(n);", "nonfatal_log(n);", "xfatal(n);", "fatal2(n);", "FATAL(n);", "RxV = fatal_value(n);", "MEM_STORE0x(n);", "MEM_STORE1(n);",
     "xMEM_STORE0(n);", "mem_store0(n);", "hex_fatal_trap(n);", "fatal(n, n);",
+    # names that differ ONLY IN CASE from a function / macro the compiler knows (C identifiers are case sensitive: these are unknown)
+    "Get_Npc(n);", "RxV = Get_Npc(n);", "RxV = GET_NPC(pkt);", "store_slot_cancelled(n, n + 1);", "Store_Slot_Cancelled(pkt, n);", "write_reg(n, 3);",
+    "write_pred(n, 1);", "Write_Reg(pkt, n, 2);", "RxV = CLZ32(n);", "RxV = Clz32(n);", "RxV = FBREV(n);", "RxV = Extract32(n, 0, 8);",
+    "RxV = DEPOSIT32(n, 0, 8, 5);", "RxV = Sextract64(n, 0, 8);", "RxV = CONV_ROUND(n, 2);", "RxV = Mem_Load_u8(n);", "RxV = MEM_LOAD_U8(n);",
+    "Mem_Store_u8(n, 4);", "MEM_STORE_U8(n, 4);", "jump(n);", "Jump(n);", "Cancel_Slot;", "RxV = get_NPC(pkt);", "SET_USR_FIELD(bundle, HEX_REG_FIELD_USR_OVF, 1);",
+    "RxV = Get_Usr_Field(bundle, HEX_REG_FIELD_USR_OVF);", "Trap(0, 7);", "RxV = BSWAP32(n);",
 ]
 
 
